@@ -254,6 +254,30 @@ func (mm *Mismatch) String() string {
 		mm.Kind, mm.Epoch, mm.Stream, mm.At, mm.Got, mm.Expected, mm.Origin)
 }
 
+// Extend re-identifies a mismatch once more delivered bytes (following mm.Got) are known; short
+// reads alone are too short a window to tell where bytes come from.
+func (m *Model) Extend(mm *Mismatch, more []byte) {
+	if mm.Kind == "unwritten" || len(more) == 0 {
+		return
+	}
+	w := append(append([]byte(nil), mm.Got...), more...)
+	if len(w) > 16 {
+		w = w[:16]
+	}
+	mm.Got = w
+	mm.Expected = make([]byte, len(w))
+	m.PRF.Fill(mm.Expected, mm.Epoch, mm.Stream, mm.At)
+	mm.Origin = m.Identify(w)
+	switch {
+	case !mm.Origin.Found:
+		mm.Kind = "unknown-bytes"
+	case mm.Origin.Epoch != mm.Epoch:
+		mm.Kind = "foreign-epoch"
+	default:
+		mm.Kind = "wrong-offset"
+	}
+}
+
 // ReaderCheck verifies the byte stream of one cache reader: byte i must be the source byte
 // (epoch, stream, start+i) of one fixed epoch among the candidates, and must have been written.
 type ReaderCheck struct {
